@@ -163,6 +163,12 @@ type World struct {
 // W is the current world (nil outside a run).
 var W *World
 
+var runSeq uint64
+
+// RunSeq numbers the runs executed by this process (run-scoped caches in the
+// shims compare against it).
+func RunSeq() uint64 { return runSeq }
+
 // Progress is bumped on every scheduling step; a real-time watchdog in the
 // worker process reads it to detect a wedged simulation.
 var Progress atomic.Uint64
@@ -219,6 +225,7 @@ func Run(cfg Config, main func()) *Result {
 	w.gen = newTape(cfg.GenTape, cfg.ReplayGen)
 	w.strat = newStrategy(w, cfg.Strategy)
 	W = w
+	runSeq++
 	resetKnobs()
 
 	t := w.newTask("main", 0)
@@ -376,6 +383,9 @@ func (w *World) recordPanic(t *Task, r any) {
 	if ex, ok := r.(exitPanic); ok {
 		c.Exit = true
 		c.Value = ex.msg
+	} else if strings.HasPrefix(c.Value, "scripted crash") {
+		// a deliberate actor crash raised by a harness receiver that nobody
+		// recovered: the code under test failed to contain it
 	} else if strings.HasPrefix(origin, "verif/") || strings.HasPrefix(origin, "main.") {
 		c.Harness = true
 	}
